@@ -279,3 +279,69 @@ def ref_pda_run(js, w, max_confs=2000):
         complete = complete and ok
         sizes.append(len(confs))
     return any(q in set(js['F']) for q, _ in confs), complete, sizes
+
+
+# ---------------------------------------------------------------- C17: independent reading of a well-formed description
+def _read_description(text):
+    """tokens of a WELL-FORMED description -> (declared items, transition triples). Reference reader for replays only."""
+    items, trans = {}, []
+    for line in text.split('\n'):
+        w = line.split()
+        if not w or w[0].startswith('%'):
+            continue
+        if w[0] in ('states', 'initial', 'final', 'input_symbols', 'epsilon', 'stack_symbols', 'tape_symbols', 'blank', 'accept', 'reject'):
+            items[w[0]] = w[1:]
+        else:
+            trans += [(w[0], a, w[1]) for a in w[2:]]
+    return items, trans
+
+
+def described_dfa(text):
+    items, trans = _read_description(text)
+    used = set(items.get('initial', [])) | set(items.get('final', [])) | {p for p, _, _ in trans} | {q for _, _, q in trans}
+    Q = set(items['states']) if 'states' in items else used
+    Sigma = set(items['input_symbols']) if 'input_symbols' in items else {a for _, a, _ in trans}
+    return {'Q': sorted(Q), 'Sigma': sorted(Sigma), 'delta': sorted([p, a, q] for p, a, q in trans), 'q0': items['initial'][0], 'F': sorted(items.get('final', []))}
+
+
+def described_nfa(text):
+    items, trans = _read_description(text)
+    used = set(items.get('initial', [])) | set(items.get('final', [])) | {p for p, _, _ in trans} | {q for _, _, q in trans}
+    Q = set(items['states']) if 'states' in items else used
+    eps = items['epsilon'][0] if 'epsilon' in items else ('ε' if any('ε' in a for _, a, _ in trans) else '_')
+    Sigma = set(items['input_symbols']) if 'input_symbols' in items else {a for _, a, _ in trans if a != eps}
+    delta = {}
+    for p, a, q in trans:
+        delta.setdefault((p, a), set()).add(q)
+    return {'Q': sorted(Q), 'Sigma': sorted(Sigma), 'delta': sorted([p, a, sorted(ts)] for (p, a), ts in delta.items()), 'q0': items['initial'][0],
+            'F': sorted(items.get('final', [])), 'epsilon': eps}
+
+
+def described_pda(text):
+    items, trans = _read_description(text)
+    used = set(items.get('initial', [])) | set(items.get('final', [])) | {p for p, _, _ in trans} | {q for _, _, q in trans}
+    Q = set(items['states']) if 'states' in items else used
+    eps = items['epsilon'][0] if 'epsilon' in items else ('ε' if any('ε' in a for _, a, _ in trans) else '_')
+    Sigma = set(items['input_symbols']) if 'input_symbols' in items else {l[0] for _, l, _ in trans if l[0] != eps}
+    Gamma = set(items['stack_symbols']) if 'stack_symbols' in items else ({l[2] for _, l, _ in trans} | {l[3] for _, l, _ in trans}) - {eps}
+    return {'Q': sorted(Q), 'Sigma': sorted(Sigma), 'Gamma': sorted(Gamma), 'epsilon': eps, 'q0': items['initial'][0], 'F': sorted(items.get('final', [])),
+            'delta': sorted([p, l[0], l[2], q, l[3]] for p, l, q in set(trans))}
+
+
+def summary_of(kind, obj):
+    if kind == 'pda':
+        j = pda_json_of(obj)
+        return {k: (list(map(str, v)) if isinstance(v, list) and k != 'delta' else ([list(map(str, t)) for t in v] if k == 'delta' else str(v))) for k, v in j.items()}
+    return {'Q': sorted(map(str, obj.Q)), 'Sigma': sorted(map(str, obj.Sigma)), 'Gamma': sorted(map(str, obj.Gamma)),
+            'delta': sorted([str(p), str(a)] + [str(x) for x in v] for (p, a), v in obj.delta.items()),
+            'q0': str(obj.q0), 'q_accept': str(obj.q_accept), 'q_reject': str(obj.q_reject), 'blank': str(obj.blank)}
+
+
+def expected_of_text(kind):
+    """the machines written in C17.PDA_TEXT / C17.TM_TEXT, by hand"""
+    if kind == 'pda':
+        return {'Q': ['p', 'q'], 'Sigma': ['a', 'b'], 'Gamma': ['x'], 'epsilon': '_', 'q0': 'p', 'F': ['q'],
+                'delta': sorted([['p', 'a', '_', 'p', 'x'], ['p', '_', '_', 'q', '_'], ['p', 'b', 'x', 'q', '_'], ['q', 'b', 'x', 'q', '_']])}
+    return {'Q': ['r', 's', 't'], 'Sigma': ['a', 'b'], 'Gamma': ['_', 'a', 'b'],
+            'delta': sorted([['s', 'a', 's', 'a', 'R'], ['s', '_', 's', '_', 'L'], ['s', 'b', 't', '_', 'R']]),
+            'q0': 's', 'q_accept': 't', 'q_reject': 'r', 'blank': '_'}
